@@ -578,33 +578,50 @@ where
             return Ok(());
         }
 
-        // Extract keys and create index mapping
-        let indices: Vec<(u64, usize)> = data
-            .iter()
-            .enumerate()
-            .map(|(i, (k, _))| ((*k).into(), i))
-            .collect();
+        let n = data.len();
+        let keys: Vec<u64> = data.iter().map(|(k, _)| (*k).into()).collect();
 
-        // Sort indices by key
-        let mut keys: Vec<u64> = indices.iter().map(|(k, _)| *k).collect();
-        let mut sorter = RadixSort::with_config(self.config.clone());
+        // Stable LSD radix sort of the index permutation: every pair travels with its own
+        // index, so duplicate keys keep their own values (and their input order).
+        let radix_bits = self.config.radix_bits.clamp(1, 16);
+        let radix = 1usize << radix_bits;
+        let mask = (radix - 1) as u64;
+        let max_key = keys.iter().copied().max().unwrap_or(0);
+        let key_bits = (64 - max_key.leading_zeros() as usize).max(1);
+        let passes = key_bits.div_ceil(radix_bits);
 
-        // Create a mapping from old key to sorted position
-        let mut key_positions = vec![0usize; keys.len()];
-        for (new_pos, &(_, old_pos)) in indices.iter().enumerate() {
-            key_positions[old_pos] = new_pos;
+        let mut order: Vec<usize> = (0..n).collect();
+        let mut next = vec![0usize; n];
+        let mut counts = vec![0usize; radix];
+
+        for pass in 0..passes {
+            let shift = pass * radix_bits;
+
+            counts.fill(0);
+            for &i in order.iter() {
+                counts[((keys[i] >> shift) & mask) as usize] += 1;
+            }
+
+            let mut pos = 0;
+            for count in counts.iter_mut() {
+                let old_count = *count;
+                *count = pos;
+                pos += old_count;
+            }
+
+            for &i in order.iter() {
+                let digit = ((keys[i] >> shift) & mask) as usize;
+                next[counts[digit]] = i;
+                counts[digit] += 1;
+            }
+
+            std::mem::swap(&mut order, &mut next);
         }
 
-        sorter.sort_u64(&mut keys)?;
-
-        // Rearrange data based on sorted keys
-        let original_data: Vec<(K, V)> = data.iter().cloned().collect();
-
-        for (new_pos, &key) in keys.iter().enumerate() {
-            // Find original position of this key
-            // SAFETY: Every key in sorted keys array came from indices, so position() always finds it
-            let old_pos = indices.iter().position(|(k, _)| *k == key).unwrap();
-            data[new_pos] = original_data[indices[old_pos].1].clone();
+        // Rearrange data according to the sorted permutation
+        let original_data: Vec<(K, V)> = data.to_vec();
+        for (new_pos, &old_pos) in order.iter().enumerate() {
+            data[new_pos] = original_data[old_pos].clone();
         }
 
         Ok(())
